@@ -82,7 +82,7 @@ func parseExe(root *Root, reader io.Reader) (exe *Executable, err error) {
 					exe.Ops[""] = op
 				}
 			default:
-				err = parseError(p.line, p.col-len(token), "'%s' is not a valid executable operation type", token)
+				err = parseError(p.tokLine, p.tokCol, "'%s' is not a valid executable operation type", token)
 			}
 		}
 	}
@@ -211,7 +211,8 @@ func (p *exeParser) readFragment() (sel Selection, err error) {
 }
 
 func (p *exeParser) readFragRef(token string) (fr *FragRef, err error) {
-	fr = &FragRef{line: p.line, col: p.col}
+	// The position just after the name, on the line of the name.
+	fr = &FragRef{line: p.tokLine, col: p.tokCol + len(token)}
 	if frag := p.exe.Fragments[token]; frag != nil {
 		fr.Fragment = frag
 	} else {
@@ -250,7 +251,7 @@ func (p *exeParser) readFragmentDef() (frag *Fragment, err error) {
 	if err == nil {
 		var token string
 		if token, err = p.readToken(); token != "on" {
-			err = parseError(p.line, p.col-2, "missing fragment condition")
+			err = parseError(p.tokLine, p.tokCol, "missing fragment condition")
 		}
 	}
 	if err == nil {
